@@ -251,11 +251,12 @@ static rc::Gen<Case> gen_cycles(GenCfg g, int max_cycles) {
 }
 
 int main(int argc, char **argv) {
+    VR.max_samples = 2;      // the evidence keeps 12 samples in all: leave room for several units
     GenCfg g; g.backend = (int)vr::envl("C07_BACKEND", 0); g.seg_kib = g.backend ? (int)vr::envl("C07_SEG_KIB", 262144) : 0;
     std::vector<std::unique_ptr<vr::PropBase>> props;
     props.push_back(vr::prop<Case>("lru", gen_lru(g), run_case));
     GenCfg gs = g; if (!gs.backend || gs.seg_kib > 8192) { gs.backend = 1; gs.seg_kib = 1024; }
     props.push_back(vr::prop<Case>("shm", gen_shm(gs), run_case));
-    props.push_back(vr::prop<Case>("cycles", gen_cycles(gs, vr::thorough() ? 60 : 20), run_case));
+    props.push_back(vr::prop<Case>("cycles", gen_cycles(gs, vr::thorough() ? 120 : 48), run_case));
     return vr::rc_main(argc, argv, props);
 }
